@@ -1048,6 +1048,9 @@ func (ps *PeerState) ApplyCommitStepMessage(msg *CommitStepMessage) {
 	if !msg.BlockParts.IsConsistent() {
 		return // a peer-supplied bit array the gossip routines could not use safely
 	}
+	if msg.BlockParts == nil || msg.BlockParts.Size() != msg.BlockPartsHeader.Total {
+		return // the bit array must describe the parts of the header it comes with
+	}
 
 	ps.ProposalBlockPartsHeader = msg.BlockPartsHeader
 	ps.ProposalBlockParts = msg.BlockParts
